@@ -176,12 +176,39 @@ def sched_exempt(r, big):
         steps.append(call(ds[i], b, r.random() < 0.1))
         if r.random() < 0.15:
             steps.append(call(ds[r.randrange(nd)], [part(v, r.randint(1, n), "y" if r.random() < 0.2 else "x")]))
-    for s in first[k0:] + [flooder] + first[:2]:
-        steps.append(call(ds[0], [part(v, s)]))
+    # after its oldest partial was evicted the flooder may come back to the first duty with ANOTHER root (nothing of it is
+    # stored there any more, so it is accepted): what the store remembers about the evicted partial must not count
+    back = "y" if r.random() < 0.5 else "x"
+    late = first[k0:] + [flooder] + first[:2]
+    if back == "y" and r.random() < 0.5:
+        late = [flooder] + first[k0:] + first[:2]
+    for s in late:
+        steps.append(call(ds[0], [part(v, s, back if s == flooder else "x")]))
     if r.random() < 0.5:
         steps.append(call(ds[order[0]], [part(v, s) for s in [flooder]]))
         for s in first[1:]:
             steps.append(call(ds[order[0]], [part(v, s)]))
+    return [{"ev": "Cfg", "t": t}] + steps
+
+
+def sched_exempt_back(r, big):
+    """Directed around the cap: exactly a threshold of shares (the flooder first) sign a never-expiring duty K - it triggers;
+    the flooder then signs 10..12 further duties of that kind for the same validator, so that its partial at K is evicted while
+    the others' stay; then it comes back to K with ANOTHER root (accepted: nothing of it is stored there) before / after a
+    further share signs the first root."""
+    n, t = r.choice([(3, 2), (4, 3), (5, 3), (4, 2)])
+    nd = r.choice([11, 12, 13])
+    ds = [duty(i, "exit") for i in range(nd)]
+    v = 1
+    first = r.sample(range(1, n + 1), n)
+    flooder = first[0]
+    steps = [call(ds[0], [part(v, s)]) for s in first[:t]]
+    for i in range(1, nd):
+        steps.append(call(ds[i], [part(v, flooder)]))
+    tail_ = [call(ds[0], [part(v, flooder, "y")])] + [call(ds[0], [part(v, s)]) for s in first[t:]]
+    if r.random() < 0.3:
+        tail_ = tail_[1:2] + tail_[:1] + tail_[2:]
+    steps += tail_ + [call(ds[0], [part(v, first[1], "x")])]
     return [{"ev": "Cfg", "t": t}] + steps
 
 
@@ -277,7 +304,7 @@ def sched_race(r, big):
 
 def random_schedules(seed, n, big, conc):
     r = vlib.rng(seed, "c07")
-    kinds = [sched_fill, sched_fill, sched_abort, sched_multi, sched_exempt]
+    kinds = [sched_fill, sched_fill, sched_abort, sched_multi, sched_exempt, sched_exempt_back]
     out = []
     for i in range(n):
         if conc:
